@@ -94,6 +94,17 @@ def obligations():
         applied_c = sorted(c for c in collectors if c in pos)
         res.append(ob("pipeline/every node-creating pass runs before every collecting pass", not bad and len(applied_p) >= 3 and len(applied_c) >= 5,
                       "producers %s before collectors %s" % (applied_p, applied_c), bad[:4] or "ordered"))
+        # the hoisting pass (the one that turns functions into calls in front of their statement) sees every statement that holds a
+        # user expression: the passes that build such statements (INPUT / READ / PRINT patchers) run before it
+        hoisters = sorted(p for p in producers if any(w.startswith("transform_function_to_call") for w in producers[p]))
+        builders = sorted(p for p in producers if p not in hoisters)
+        bad = []
+        for h in hoisters:
+            for b in builders:
+                if h in pos and b in pos and max(k for k, _ in pos[b]) > min(k for k, _ in pos[h]):
+                    bad.append("%s (builds statements: %s) runs at line %d, after the hoisting pass %s at line %d" % (b, sorted(producers[b])[0], max(l for _, l in pos[b]), h, min(l for _, l in pos[h])))
+        res.append(ob("pipeline/statement-building passes run before the hoisting pass", not bad and len(hoisters) == 1 and len([b for b in builders if b in pos]) >= 3,
+                      "%s before %s" % ([b for b in builders if b in pos], hoisters), bad[:3] or "ordered"))
         # what depends on the collected references comes after the collection; the generated dispatcher is appended after the filters
         bad = []
         ref = min((k for k, _ in pos.get("LineReferenceVisitor", [])), default=None)
